@@ -358,6 +358,56 @@ def r19_6(ctx):
     t = src(rf.node)
     ok = 'new_knots = (mesh[1:] + mesh[:-1]) / 2' in t and 'np.sort(np.concatenate((self.kv, new_knots)))' in t
     ctx.decide('R19.6', rf.qual, 'uniform refinement inserts span midpoints; result sorted union', ok or None, rf.node)
+    # semantic: the midpoints are taken between DISTINCT breakpoints (the mesh), not between consecutive raw knots --
+    # a repeated knot x has an empty span whose "midpoint" (x+x)/2 is x itself, so its multiplicity would grow
+    dflt = [s for s in own_nodes(rf.node) if isinstance(s, ast.Assign) and src(s.targets[0]) == 'new_knots'
+            and guards.has_literal(guards.path_conditions(s), 'new_knots is None', True)]
+    if not dflt:
+        ctx.undecided('R19.6', rf.qual, 'default new_knots', rf.node, 'default branch not recognised')
+    else:
+        local = {}
+        for s in own_nodes(rf.node):
+            if isinstance(s, ast.Assign) and len(s.targets) == 1 and isinstance(s.targets[0], ast.Name) and s is not dflt[0]:
+                local.setdefault(s.targets[0].id, []).append(s.value)
+
+        def origins(e, depth=0):
+            """set of ('mesh'|'raw'|'other', text) for the arrays an expression is computed from"""
+            out = set()
+            if isinstance(e, ast.Call) and (call_name(e) or '').split('.')[-1] == 'unique':
+                return {('mesh', src(e))}
+            if isinstance(e, ast.Attribute) and isinstance(e.value, ast.Name) and e.value.id == 'self':
+                if e.attr in ('mesh', '_mesh'):
+                    return {('mesh', src(e))}
+                if e.attr == 'kv':
+                    return {('raw', src(e))}
+                if e.attr in ('p',):
+                    return set()
+                return {('other', src(e))}
+            if isinstance(e, ast.Attribute) and src(e).endswith('.size'):
+                return set()
+            if isinstance(e, ast.Name):
+                if e.id in local and depth < 5:
+                    for v in local[e.id]:
+                        out |= origins(v, depth + 1)
+                    return out
+                return {('other', e.id)} if e.id not in ('np',) else set()
+            if isinstance(e, ast.Subscript):
+                return origins(e.value, depth)        # slices select, they do not deduplicate
+            for c in ast.iter_child_nodes(e):
+                if isinstance(c, ast.expr):
+                    out |= origins(c, depth)
+            return out
+        og = origins(dflt[0].value)
+        kinds = {k for k, _t in og}
+        if kinds == {'mesh'}:
+            ctx.met('R19.6', rf.qual, 'midpoints of the default refinement are taken between distinct breakpoints', dflt[0], 'computed from ' + ', '.join(sorted(t for _k, t in og)))
+        elif 'raw' in kinds and 'mesh' not in kinds and 'other' not in kinds:
+            ctx.violated('R19.6', rf.qual, 'midpoints of the default refinement are taken between distinct breakpoints', dflt[0],
+                         'computed from the raw knot sequence (%s): for an interior knot of multiplicity m > 1 the empty spans contribute the knot '
+                         'itself, refine() is no longer the union of the old knots and the span midpoints and multiplicities grow to 2m-1'
+                         % ', '.join(sorted(t for _k, t in og)))
+        else:
+            ctx.undecided('R19.6', rf.qual, 'midpoints of the default refinement are taken between distinct breakpoints', dflt[0], 'origins: %s' % sorted(og))
 
 
 def run(ctx):
